@@ -3,6 +3,7 @@
 decides the properties C01..C19 (DESIGN.md section 5).  Nothing here runs generated code."""
 import json
 import os
+import re
 import sys
 import time
 
@@ -23,6 +24,15 @@ T = ("T",)
 
 def S(name, k, neg=False):
     return ("s", name, k, neg)
+
+
+_CANON = re.compile(r"(\.0)+$")
+
+
+def canon_sym(name):
+    """`p0.0.0` (self -> Partial -> struct -> raw) and `p0.0` name the same thing: how many single-field wrappers
+    surround the raw integer is a representation detail, so a trailing chain of `.0` is collapsed to one"""
+    return _CANON.sub(".0", name)
 
 
 def parse_map(m):
@@ -47,6 +57,7 @@ def parse_map(m):
                 src = src[1:]
             name, k = src.rsplit("@", 1)
             k = int(k)
+            name = canon_sym(name)
             out += [S(name, k + i, neg) for i in range(n)]
     return out
 
@@ -189,7 +200,7 @@ class Ctx:
 
 
 def self_sym(depth=0):
-    return "p0" + ".0" * (depth + 1)
+    return "p0.0"
 
 
 def expected_payload_from_self(f, i, sym):
@@ -247,12 +258,9 @@ def self_cell_unchanged(o, storage, depth=0):
     c = o["cells"].get("p0")
     if c is None:
         return "no self cell"
-    v = c
-    for _ in range(depth + 1):
-        v = struct1(v)
-        if v is None:
-            return "self cell has unexpected shape"
-    bits = int_of(v)
+    bits = raw_of_struct_val(c)
+    if bits is None:
+        return "self cell has unexpected shape"
     exp = [S(self_sym(depth), k) for k in range(storage)]
     return diff_bits(bits, exp)
 
@@ -570,11 +578,15 @@ def check_frame_only(ctx, cr, s, f):
 
 
 def raw_of_struct_val(v, depth=0):
-    for _ in range(depth + 1):
-        v = struct1(v)
+    """the raw integer inside a generated value, however many single-field wrappers surround it"""
+    for _ in range(6):
         if v is None:
             return None
-    return int_of(v)
+        b = int_of(v)
+        if b is not None:
+            return b
+        v = struct1(v)
+    return None
 
 
 def check_basics(ctx, cr, s):
@@ -1330,7 +1342,7 @@ def expected_const(cr, decl, c):
             if len(cands) != 1:
                 return None
             part = {}
-            env = {"p0.0.0": cur}
+            env = {"p0.0": cur}
             if f["array"]:
                 for i, vv in enumerate(v):
                     if f["ty"]["k"] == "bool":
